@@ -1,7 +1,9 @@
 package server
 
 import (
+	"context"
 	"slices"
+	"sync"
 	"time"
 
 	"github.com/osrg/gobgp/v4/internal/pkg/table"
@@ -238,4 +240,83 @@ func VH_c01_server_flaps() {
 	if !aUp {
 		vReach("source_lost")
 	}
+}
+
+// C01 (transport): the real sendMessageloop (coalescing sender + packer + serialisation) turns the
+// batches queued for a session into bytes; the UPDATEs written to the transport, parsed back and
+// applied in order, leave the peer with exactly the effect of applying the queued batches one
+// path at a time (the last action per prefix wins, each announced prefix with its own attributes).
+func VH_c01_transport() {
+	f, h, conn := c07fsm(bgp.BGP_FSM_ESTABLISHED, nil, true)
+	f.familyMap.Store(map[bgp.Family]bgp.BGPAddPathMode{bgp.RF_IPv4_UC: bgp.BGP_ADD_PATH_NONE})
+	src := &table.PeerInfo{AS: 65009, Address: vAddr4(10, 0, 0, 9), ID: vAddr4(9, 9, 9, 9)}
+	prefixes := []*bgp.IPAddrPrefix{vPrefix4(10, 1, 0, 0, 16), vPrefix4(10, 2, 0, 0, 16)}
+	type want struct {
+		have bool
+		med  uint32
+	}
+	model := map[string]want{}
+	batches := vParam("batches")
+	for i := 0; i < batches; i++ {
+		var paths []*table.Path
+		n := 1 + vChoice("batch_size", 2)
+		for j := 0; j < n; j++ {
+			pf := prefixes[vChoice("prefix", 2)]
+			if vBool("withdraw") {
+				paths = append(paths, table.NewPath(bgp.RF_IPv4_UC, src, bgp.PathNLRI{NLRI: pf}, true, nil, vTimeUnix(int64(100+i)), false))
+				model[pf.String()] = want{}
+			} else {
+				med := vU32("med")
+				nh, _ := bgp.NewPathAttributeNextHop(vAddr4(10, 0, 0, 1))
+				attrs := []bgp.PathAttributeInterface{bgp.NewPathAttributeOrigin(0),
+					bgp.NewPathAttributeAsPath([]bgp.AsPathParamInterface{bgp.NewAs4PathParam(bgp.BGP_ASPATH_ATTR_TYPE_SEQ, []uint32{65000, 65009})}), nh,
+					bgp.NewPathAttributeMultiExitDisc(med)}
+				paths = append(paths, table.NewPath(bgp.RF_IPv4_UC, src, bgp.PathNLRI{NLRI: pf}, false, attrs, vTimeUnix(int64(100+i)), false))
+				model[pf.String()] = want{true, med}
+			}
+		}
+		f.outgoingCh.In() <- &fsmOutgoingMsg{Paths: paths}
+	}
+	ctx, cancel := context.WithCancel(context.Background())
+	wg := &sync.WaitGroup{}
+	wg.Add(1)
+	go h.sendMessageloop(ctx, conn, make(chan fsmStateReason, 3), wg)
+	vSettle()
+	cancel()
+	// the peer's side: parse what was written and apply it
+	view := map[string]want{}
+	conn.mu.Lock()
+	b := append([]byte(nil), conn.out...)
+	conn.mu.Unlock()
+	for len(b) >= 19 {
+		l := int(b[16])<<8 | int(b[17])
+		vAssert(l >= 19 && l <= len(b) && l <= 4096, "a message written to the session is mis-framed or exceeds 4096 octets")
+		if l < 19 || l > len(b) {
+			return
+		}
+		m, err := bgp.ParseBGPMessage(b[:l])
+		vAssert(err == nil, "a message written to the session does not parse")
+		if err != nil {
+			return
+		}
+		if u, ok := m.Body.(*bgp.BGPUpdate); ok {
+			for _, w := range u.WithdrawnRoutes {
+				view[w.NLRI.String()] = want{}
+			}
+			var med uint32
+			for _, a := range u.PathAttributes {
+				if x, ok := a.(*bgp.PathAttributeMultiExitDisc); ok {
+					med = x.Value
+				}
+			}
+			for _, n := range u.NLRI {
+				view[n.NLRI.String()] = want{true, med}
+			}
+		}
+		b = b[l:]
+	}
+	for _, pf := range prefixes {
+		vAssert(view[pf.String()] == model[pf.String()], "the UPDATEs written to the transport do not leave the peer with the effect of the queued route changes applied in order")
+	}
+	vReach("end")
 }
